@@ -65,7 +65,7 @@ class Rec:
         named = {}
         variadic = {}
         try:
-            sig = inspect.signature(fn)
+            sig = inspect.signature(fn, follow_wrapped=False)
             ba = sig.bind(*args, **kwargs)
             ba.apply_defaults()
             for name, p in sig.parameters.items():
